@@ -830,3 +830,7 @@ def r1b(cx):
                          '`ulimit -%s` then act on different resources (the long spelling is not equivalent to the short one)'
                          % (letter, variant, spec['long'], variant.lower(), letter), loc=hloc(h, h['body']))
     cx.floor(n, 19, 'resource options of ulimit')
+
+
+# --- explanation addendum (generated catalogue in DESIGN.md reads RS.explanation)
+RS.explanation += " Added later: ulimit's long names agree with the resource selected by the short letter (R1b); the cut of `--name=value` is measured in the text the user typed (R3b)."
